@@ -101,7 +101,11 @@ def hMon (m : MSt) (op : List String) (_ : List (List String)) (obs : Option Str
         (if !ready && allGood then
           [fail "C30:not-ready-though-all-reported-ready" "IsReady=false although every subsystem is registered, reported ready less than timeout-tick ago"] else [])
       (m', fs)
-    | _, _ => (m', [fail "C30:unreadable-observation" "observation carries no a=/r= fields"])
+    | _, _ =>
+      -- a panic inside Health is a property failure (no call of the Recorder/Reporter API may
+      -- panic); a harness synchronisation problem (tick-sync-timeout, bad-ticker) is not: it is
+      -- left to the model comparison, which reports it as a mismatch without a failing input
+      if ob.startsWith "panic" then (m', [fail "C30:panic" s!"Health panicked: {ob}"]) else (m', [])
   | _, _ => (m, [])
 
 def comp : Component TSt MSt where
